@@ -77,7 +77,7 @@ def sublattice(tier):
     """Smaller lattice used for the members of 3-member multi-geometries."""
     if tier == "quick":
         return [0, 1, 3], [0, 2000, MAXF]
-    return [0, 1, 2, 3], [0, 1000, 2000, MAXF]
+    return [0, 1, 2, 3], [0, 2000, MAXF]
 
 
 def max_len(tier):
@@ -136,6 +136,15 @@ def holes_of(shell, T, Fq):
             yield c
 
 
+def separated(h1, h2, axis):
+    """h1 lies before h2 on the axis; they may share the dividing coordinate only in one vertex each
+    (so two holes touch in at most one point)."""
+    hi, lo = max(p[axis] for p in h1), min(p[axis] for p in h2)
+    if hi < lo:
+        return True
+    return hi == lo and sum(p[axis] == hi for p in h1) == 1 and sum(p[axis] == lo for p in h2) == 1
+
+
 def holed_polygons(T, Fq, two_holes):
     for i0, i1 in itertools.combinations(range(len(T)), 2):
         for j0, j1 in itertools.combinations(range(len(Fq)), 2):
@@ -149,9 +158,8 @@ def holed_polygons(T, Fq, two_holes):
                 yield [sc[::-1], h[::-1]]
             if two_holes and i0 == 0 and j0 == 0 and i1 == len(T) - 1 and j1 == len(Fq) - 1:
                 for h1, h2 in itertools.permutations(hs, 2):
-                    a, b = gm.extent("LineString", h1), gm.extent("LineString", h2)
                     strictly_inside = all(shell[0] < p[0] < shell[1] and shell[2] < p[1] < shell[3] for p in h1 + h2)
-                    if strictly_inside and (a[2] < b[0] or b[2] < a[0] or a[3] < b[1] or b[3] < a[1]):
+                    if strictly_inside and (separated(h1, h2, 0) or separated(h1, h2, 1)):
                         yield [sc, h1, h2]
 
 
@@ -185,8 +193,11 @@ def first_holed(T, Fq):
         return p
 
 
-def mpoly_pool2(T, Fq):
-    pool = [[rect_corners(*r)] for r in rects(T, Fq)] + list(right_triangles(T, Fq))
+def mpoly_pool2(T, Fq, tier):
+    tris = list(right_triangles(T, Fq))
+    if tier == "quick":  # two of the four right triangles of every rectangle, the omitted corner alternating
+        tris = [t for i, t in enumerate(tris) if (i % 4) % 2 == (i // 4) % 2]
+    pool = [[rect_corners(*r)] for r in rects(T, Fq)] + tris
     pool.append(first_holed(T, Fq))
     return pool
 
@@ -256,7 +267,7 @@ def family(fam, tier):
         for tri in itertools.combinations(pts, 3):
             yield "MultiPolygon", [[[list(p) for p in tri]]]
     elif fam == "mpoly2":
-        pool = mpoly_pool2(T, Fq)
+        pool = mpoly_pool2(T, Fq, tier)
         for a, b in itertools.product(pool, repeat=2):
             yield "MultiPolygon", [a, b]
     elif fam == "mpoly3":
@@ -283,7 +294,7 @@ def bounds(tier):
         "times": T, "frequencies": Fq, "sublattice_for_3_members": {"times": T3, "frequencies": F3},
         "max_points_per_line": max_len(tier)["line"], "max_points_per_multipoint": max_len(tier)["mpoint"],
         "multi_members": [1, 2, 3], "holes_per_polygon": [0, 1] if tier == "quick" else [0, 1, 2],
-        "mpoly_pool_sizes": {"k2": len(mpoly_pool2(T, Fq)), "k3": len(mpoly_pool3(tier))},
+        "mpoly_pool_sizes": {"k2": len(mpoly_pool2(T, Fq, tier)), "k3": len(mpoly_pool3(tier))},
         "geometries_per_family": family_counts(tier),
         "positions": POSITIONS + SHAPELY_POSITIONS, "invalid_positions": INVALID,
     }
